@@ -27,6 +27,9 @@ type c03Mode struct {
 	Auth    bool   `json:"auth"`
 	Resumed bool   `json:"resumed"`
 	PMTU    int    `json:"pmtu,omitempty"` // datagram stack: path MTU of both ends (small: the flights are fragmented)
+	// TCA: the client's configuration names trusted CAs (Config.TrustedCAIndications): its hello carries the
+	// trusted_ca_keys extension; every byte position of that hello is tried, also in the quick tier
+	TCA bool `json:"tca,omitempty"`
 }
 
 type c03Params struct {
@@ -51,10 +54,11 @@ func (c03) Assumptions() []string {
 }
 
 var c03Modes = []c03Mode{
-	{TLCP, ECC_GCM, false, false, 0}, {TLCP, ECC_CBC, true, false, 0}, {TLCP, ECDHE_GCM, true, false, 0}, {TLCP, ECDHE_CBC, true, false, 0},
-	{TLCP, ECC_GCM, false, true, 0}, {TLCP, ECDHE_CBC, true, true, 0},
-	{DTLCP, ECC_GCM, false, false, 0}, {DTLCP, ECDHE_CBC, true, false, 0}, {DTLCP, ECC_CBC, true, true, 0},
-	{DTLCP, ECC_GCM, false, false, 400},
+	{TLCP, ECC_GCM, false, false, 0, false}, {TLCP, ECC_CBC, true, false, 0, false}, {TLCP, ECDHE_GCM, true, false, 0, false}, {TLCP, ECDHE_CBC, true, false, 0, false},
+	{TLCP, ECC_GCM, false, true, 0, false}, {TLCP, ECDHE_CBC, true, true, 0, false},
+	{DTLCP, ECC_GCM, false, false, 0, false}, {DTLCP, ECDHE_CBC, true, false, 0, false}, {DTLCP, ECC_CBC, true, true, 0, false},
+	{DTLCP, ECC_GCM, false, false, 400, false},
+	{TLCP, ECC_GCM, false, false, 0, true}, {DTLCP, ECC_CBC, false, false, 0, true},
 }
 
 var (
@@ -104,7 +108,7 @@ func c03List(tier string) []c03Params {
 			for dir := 0; dir < 2; dir++ {
 				for rec, L := range lens[dir] {
 					pos := func(off int) bool {
-						if ti == 1 {
+						if ti == 1 || (m.TCA && dir == 0 && rec == 0) {
 							return true
 						}
 						return off < 12 || off >= L-6 || off%9 == rec%9
@@ -155,7 +159,7 @@ func c03List(tier string) []c03Params {
 							}
 						}
 						for off := 0; off < L; off++ {
-							if ti == 0 && !(off < 30 || off%13 == rec%13 || ccs[off]) {
+							if ti == 0 && !(off < 30 || off%13 == rec%13 || ccs[off]) && !(m.TCA && dir == 0 && rec <= 1) {
 								continue
 							}
 							for _, mk := range []byte{0x01, 0xff} {
@@ -209,7 +213,7 @@ type c03Out struct {
 
 // c03Execute runs the (possibly resumed) handshake with or without the faults.
 func c03Execute(c *Case, src *vs.Src, p *c03Params, r *Result, baseline bool) *c03Out {
-	cc := &EPConf{Suites: []uint16{p.Suite}, ServerName: "server.test", Cache: "c", ALPN: []string{"h2", "foo"}, PMTU: p.PMTU}
+	cc := &EPConf{Suites: []uint16{p.Suite}, ServerName: "server.test", Cache: "c", ALPN: []string{"h2", "foo"}, PMTU: p.PMTU, TrustedCAs: p.TCA}
 	sc := &EPConf{Suites: []uint16{p.Suite}, Certs: []string{"server_sig", "server_enc"}, ClientCAs: []string{"ca1"}, Cache: "s", ALPN: []string{"foo"}, PMTU: p.PMTU}
 	if p.Auth || IsECDHE(p.Suite) {
 		cc.Certs = []string{"client_sig", "client_enc"}
